@@ -57,7 +57,7 @@ pub const TYPED: &[u8] = &[
 pub fn analyze_output(out: &[u8], want_machine: bool) -> (Result<Vec<Op>, LexError>, Option<LexError>, Option<RunOut>, [u32; 256]) {
     let ops = lexer::lex_py(out);
     let mut hist = [0u32; 256];
-    let mut c04 = None;
+    let c04;
     let mut run = None;
     match &ops {
         Ok(v) => {
@@ -76,7 +76,7 @@ pub fn analyze_output(out: &[u8], want_machine: bool) -> (Result<Vec<Op>, LexErr
 
 pub fn analyze(case: &GenCase, want: Want) -> Analysis {
     let log: SpyLog = Arc::new(Mutex::new(Vec::new()));
-    let cfg = TraceCfg { record_steps: want.steps, record_state: want.state, record_valid: want.valid, script: vec![], fuel: None };
+    let cfg = TraceCfg { record_steps: want.steps, record_state: want.state, record_valid: want.valid, script: vec![], fuel: None, draw_fuel: None };
     let (result, trace) = case.run_traced(cfg, if want.spy { Some(&log) } else { None });
     let spy = std::mem::take(&mut *log.lock().unwrap());
     match &result {
